@@ -20,7 +20,7 @@ RULE = (
     "real pytest sessions over configuration x program. Configuration: CLI value (absent | any subset of the "
     "four categories optionally with report / review / short-report | disable | a default or user-defined "
     "shortcut option | an unknown flag | disable+category) x INLINE_SNAPSHOT_DEFAULT_FLAGS (unset | value) x "
-    "pyproject default-flags / default-flags-tui / shortcuts x tty (FORCE_COLOR) x CI variable (none | one of 12 "
+    "pyproject default-flags / default-flags-tui / shortcuts / the remaining options at their documented default values x tty (FORCE_COLOR) x CI variable (none | one of 12 "
     "| with PYCHARM_HOSTED) x xdist (-n 2 | -n 0 | none) x review answer strings x xfail markers (bare, True, "
     "False, reason). Program: 2-4 recording-style sites with noisy previous values (pending categories known "
     "from the category model), one outsourced external site and one persisted but unreferenced external in the "
@@ -81,6 +81,9 @@ def _config(draw):
         # (names chosen so that they do not collide with options of pytest itself)
         pp["shortcuts"] = {"snapoff": ["disable"], "snapall": ["create", "fix", "trim", "update"], "fix": ["fix"],
                            "review": ["review", "create"]}
+    if draw(st.integers(0, 3)) == 0:
+        # the other options, spelled out with the values the documentation lists as defaults
+        pp["documented-defaults"] = True
     cfg["pyproject"] = pp
     env = draw(st.sampled_from(["none", "none", "none", "ci", "ci-pycharm", "xdist2", "xdist0"]))
     if env.startswith("ci"):
@@ -135,6 +138,8 @@ def build_project(case):
     for k in ("default-flags", "default-flags-tui"):
         if k in pp:
             toml.append(f"{k} = {list(pp[k])!r}".replace("'", '"'))
+    if pp.get("documented-defaults"):
+        toml += ["hash-length=15", 'format-command=""', "skip-snapshot-updates-for-now=false"]
     if "shortcuts" in pp:
         toml.append("")
         toml.append("[tool.inline-snapshot.shortcuts]")
@@ -237,6 +242,10 @@ def check(case):
         # reference: plain CLI category list, neutral environment, pristine copy
         ref_files = dict(files)
         ref_files["pyproject.toml"] = "[tool.black]\nline-length = 88\n"
+        if cfg["pyproject"].get("documented-defaults"):
+            # only what decides *which* categories apply is dropped from the reference configuration (the
+            # documented hash-length differs from the built-in one and shows in external(...) references)
+            ref_files["pyproject.toml"] += "\n[tool.inline-snapshot]\nhash-length=15\n"
         d2 = drivers.make_project(ref_files, pyproject=None)
         try:
             r2 = drivers.run_pytest(d2, ["--inline-snapshot=" + ",".join(sorted(F))])
